@@ -53,19 +53,24 @@ Section ModWorld.
         * right. exact Hy.
   Qed.
 
+  (* the live sessions other than [s0] of association [ci] *)
+  Definition rest_sessions (w : world) (ci : N) (s0 : session) : list session :=
+    del_session (s_lseid s0) (c_sessions (get_conn ci (w_conns w))) ++ others ci (w_conns w).
+
   (* a step that replaces one stored session of association ci and changes the tables accordingly *)
   Lemma world_modify w ci seid s0 s' a' c' :
     envelope burst w -> envelope burst (World a' (put_conn ci c' (w_conns w))) -> image_ok burst w ->
     find_session seid (c_sessions (get_conn ci (w_conns w))) = Some s0 ->
     c_sessions c' = replace_session s' (c_sessions (get_conn ci (w_conns w))) -> s_lseid s' = s_lseid s0 ->
-    (forall rest, is_image (a_tables (w_agent w)) (session_cmds burst s0 ++ rest) ->
-       NoDup (map tg (session_cmds burst s0)) -> disjoint_from (session_cmds burst s0) rest ->
-       NoDup (map tg (session_cmds burst s')) -> disjoint_from (session_cmds burst s') rest ->
-       is_image (a_tables a') (session_cmds burst s' ++ rest)) ->
+    (let rest := image burst (rest_sessions w ci s0) in
+     is_image (a_tables (w_agent w)) (session_cmds burst s0 ++ rest) ->
+     NoDup (map tg (session_cmds burst s0)) -> disjoint_from (session_cmds burst s0) rest ->
+     NoDup (map tg (session_cmds burst s')) -> disjoint_from (session_cmds burst s') rest ->
+     is_image (a_tables a') (session_cmds burst s' ++ rest)) ->
     image_ok burst (World a' (put_conn ci c' (w_conns w))).
   Proof.
     intros E E' Hi Hf Hc Hl Hstep. destruct E as [Ek El Ew Ea]. destruct E' as [Ek' El' Ew' Ea'].
-    unfold image_ok in *. cbn [w_agent w_conns] in *.
+    unfold image_ok, rest_sessions in *. cbv zeta in Hstep. cbn [w_agent w_conns] in *.
     set (l := w_conns w) in *. set (c := get_conn ci l) in *.
     pose proof (find_session_in _ _ _ Hf) as Hin.
     assert (forall x, In x (all_sessions w) <-> In x (c_sessions c ++ others ci l)) as Hsplit.
@@ -86,7 +91,7 @@ Section ModWorld.
       - split; [apply Hsplit; apply in_or_app; right; exact H2|]. split; [apply Hsplit'; apply in_or_app; right; exact H2|].
         intros Heq. assert (s2 = s0) as -> by (apply (nodup_lseid_unique (all_sessions w)); auto; apply Hsplit; apply in_or_app; right; exact H2).
         exact (own_not_other ci l s0 Ek El Hin H2). }
-    eapply is_image_ext; [apply (Hstep (image burst rs))|].
+    eapply is_image_ext; [apply Hstep|].
     - eapply is_image_ext; [exact Hi|]. intros x. unfold rs. rewrite <- (image_focus (c_sessions c) (others ci l) s0 Huniq Hin x).
       rewrite !in_image. split; intros (y & Hy & Hxy); exists y; (split; [apply Hsplit; exact Hy|exact Hxy]).
     - apply distinct_keys_nodup. apply Ew. exact A0.
@@ -99,17 +104,34 @@ Section ModWorld.
       rewrite !in_image. split; intros (y & Hy & Hxy); exists y; (split; [apply Hsplit'; exact Hy|exact Hxy]).
   Qed.
 
+  Fixpoint nodup_tgb (l : list (module * list N)) : bool :=
+    match l with [] => true | x :: r => negb (existsb (tg_eqb x) r) && nodup_tgb r end.
+  Lemma nodup_tgb_spec l : nodup_tgb l = true -> NoDup l.
+  Proof.
+    induction l as [|x l IH]; intros H; [constructor|]. cbn [nodup_tgb] in H. apply andb_true_iff in H. destruct H as [H1 H2].
+    constructor; [|apply IH; exact H2]. intros Hin.
+    assert (existsb (tg_eqb x) l = true) as A by (apply existsb_exists; exists x; split; [exact Hin|apply tg_eqb_eq; reflexivity]).
+    rewrite A in H1. discriminate.
+  Qed.
+
   (* ---- the guard on (state before, message) *)
-  Definition mod_ok (a : agent) (c : conn) (m : msg) : bool :=
+  Definition mod_ok (w : world) (ci : N) (m : msg) : bool :=
+    let a := w_agent w in let c := get_conn ci (w_conns w) in
     match m with
     | MMod seid cpf cp cf cq up uf uq rp rf rq =>
       match find_session seid (c_sessions c) with
       | None => true                        (* unknown session: rejected, nothing changes *)
       | Some s0 =>
-        let '(w, k) := mod_loops a c s0 seid cp cf cq up uf uq in
+        let '(wk, k) := mod_loops a c s0 seid cp cf cq up uf uq in
         match k with
-        | O => late_ok a c seid s0 w cp cf cq up uf uq rp rf rq
-        | S _ => early_ok s0 k w cp cf cq
+        | O =>
+          (* a message that both creates and removes: between the add batch and the delete batch the session holds the
+             old and the new rules; their keys must be pairwise distinct and differ from the other sessions' keys *)
+          let mid := if (nil_b cp && nil_b cf && nil_b cq) || (nil_b rp && nil_b rf && nil_b rq) then true
+                     else nodup_tgb (map tg (add_cmds burst (view (w_p wk)) (view (w_f wk)) (view (w_q wk)) ++
+                                             image burst (rest_sessions w ci s0))) in
+          late_ok a c seid s0 wk cp cf cq up uf uq rp rf rq mid
+        | S _ => early_ok s0 k wk cp cf cq
         end
       end
     | _ => true
@@ -117,7 +139,7 @@ Section ModWorld.
   (* the events of the extended theorem: those of [ev_ok], plus Session Modifications inside the guard *)
   Definition ev_ok_mod (w : world) (e : wevent) : bool :=
     match e with
-    | WMsg ci _ m _ => if is_mod m then mod_ok (w_agent w) (get_conn ci (w_conns w)) m else true
+    | WMsg ci _ m _ => if is_mod m then mod_ok w ci m else true
     | _ => ev_ok e
     end.
 
@@ -145,11 +167,14 @@ Section ModWorld.
     2:{ rewrite (mod_unknown burst _ _ _ cpfseid cp cf cq up uf uq rp rf rq Hf) in Hh. inversion Hh; subst. apply world_unchanged; auto. }
     destruct (mod_loops (w_agent w) (get_conn ci (w_conns w)) s0 seid cp cf cq up uf uq) as [wk k] eqn:HL.
     destruct k as [|k].
-    - destruct (mod_late_image burst _ _ _ _ _ _ _ _ _ _ _ _ _ _ _ _ _ _ Hf HL Hok Hh) as (s' & Hc & Hl & _ & _ & Hstep).
-      eapply world_modify; eauto.
+    - destruct (mod_late_image burst _ _ _ _ _ _ _ _ _ _ _ _ _ _ _ _ _ _ _ Hf HL Hok Hh) as (s' & Hc & Hl & _ & _ & Hstep).
+      eapply world_modify; eauto. cbv zeta. intros Hi0 Hn0 Hd0 Hn' Hd'. apply Hstep; auto.
+      intros EX Hmid. rewrite EX in Hmid.
+      apply nodup_tgb_spec in Hmid. rewrite map_app in Hmid. destruct (nodup_app_split _ _ Hmid) as (A & _ & C).
+        split; [exact A|]. apply disjoint_from_tg. exact C.
     - destruct (mod_early_image burst _ _ _ _ _ _ _ _ _ _ _ _ _ _ _ _ _ _ _ Hf HL Hok Hh) as (s' & Hc & Hl & Ht & _ & _ & Hsc).
       eapply world_modify; eauto.
-      intros rest Hi0 _ _ _ _. rewrite Ht, Hsc. exact Hi0.
+      cbv zeta. intros Hi0 _ _ _ _. rewrite Ht, Hsc. exact Hi0.
   Qed.
 
   (* ---- histories: every event is checked against the state it meets *)
@@ -184,16 +209,6 @@ Section ModWorld.
   Qed.
 
   (* ---- deciding the hypotheses on concrete states (used by the non-vacuity examples) *)
-  Fixpoint nodup_tgb (l : list (module * list N)) : bool :=
-    match l with [] => true | x :: r => negb (existsb (tg_eqb x) r) && nodup_tgb r end.
-  Lemma nodup_tgb_spec l : nodup_tgb l = true -> NoDup l.
-  Proof.
-    induction l as [|x l IH]; intros H; [constructor|]. cbn [nodup_tgb] in H. apply andb_true_iff in H. destruct H as [H1 H2].
-    constructor; [|apply IH; exact H2]. intros Hin.
-    assert (existsb (tg_eqb x) l = true) as A by (apply existsb_exists; exists x; split; [exact Hin|apply tg_eqb_eq; reflexivity]).
-    rewrite A in H1. discriminate.
-  Qed.
-
   Lemma image_nodup_within : forall ss s, NoDup (map tg (image burst ss)) -> In s ss -> NoDup (map tg (session_cmds burst s)).
   Proof.
     induction ss as [|x ss IH]; intros s Hn Hs; [destruct Hs|]. cbn [image flat_map] in Hn. rewrite map_app in Hn.
